@@ -383,11 +383,11 @@ static void purge_case(long k) {
   int64_t T1 = vf_os.clock_ms;
   if (U == U_ALL) { expiry = d * mult; vf_os.clock_ms = T1 + expiry + 1000; T0 = T1; }
   else vf_os.clock_ms = T0 + expiry + 1000 + churn * (ext > 0 ? ext : 0);
-  int expect = 0;
+  int expect = 0; uint8_t* pc_addr = NULL;
   switch (A) {
     /* page in a live segment: the segment's purge point is reached when another page of it is freed. (Allocating in
        the segment re-arms the delay by design -- "we assume more allocations are coming soon" -- so it is a control.) */
-    case A_FREE_OTHER_PAGE: if (U == U_PAGE || U == U_MULTI) { mi_free(pc); pc = NULL; expect = 1; } else { void* t = mi_malloc(64); mi_free(t); expect = 0; } break;
+    case A_FREE_OTHER_PAGE: if (U == U_PAGE || U == U_MULTI) { pc_addr = pc; mi_free(pc); pc = NULL; expect = 1; } else { void* t = mi_malloc(64); mi_free(t); expect = 0; } break;
     case A_ALLOC_PAGE:      { void* t = mi_malloc(300 * KiB); (void)t; expect = 0; break; }
     /* whole segments: the arena's purge point is reached by any arena free and by a non-forced collect */
     case A_HUGE_ALLOC_FREE: { void* t = mi_malloc(40 * MiB); mi_free(t); expect = (U == U_SEGMENT || U == U_ALL); break; }
@@ -403,6 +403,15 @@ static void purge_case(long k) {
       size_t g = returned_bytes_in(mlo[i], mhi[i], g_mark, 1);
       if (g < need) { VIOL("not-purged-after-delay", "%ld ms after becoming unused (delay %ld ms) activity '%s' returned only %zu of %zu bytes of unused page %d of 4 (no forced collect)", (long)(vf_os.clock_ms - T0), expiry, a_names[A], g, span, i + 1); return; }
     }
+  }
+  /* (3) the page released by the activity itself is unused from now on: at the latest a forced collect gives it back */
+  if (A == A_FREE_OTHER_PAGE && (U == U_PAGE || U == U_MULTI) && churn == 0) {
+    uintptr_t clo = (uintptr_t)pc_addr, chi = clo + 1 * MiB;
+    vf_os.clock_ms += expiry + 1000;
+    mi_collect(true);
+    size_t g3 = returned_bytes_in(clo, chi, g_mark, 1);
+    VF_INC(checks);
+    if (g3 < 1 * MiB - 192 * KiB) { VIOL("not-purged-by-forced-collect", "the page released %ld ms ago by the activity itself is still not given back after mi_collect(true): %zu of %zu bytes returned", (long)(expiry + 1000), g3, (size_t)(1 * MiB)); return; }
   }
   if (expect) {
     size_t want = need;
@@ -441,6 +450,15 @@ static void recovery_and_quiescence(snap_t* base) {
   size_t refused = 0;
   for (long k = 0; k < vf_os.ncalls && k < VF_MAX_CALLS; k++) if (vf_os.calls[k].kind == VF_C_MUNMAP && vf_os.calls[k].failed) refused += (vf_os.calls[k].len + 4095) & ~(size_t)4095;
   if (s.os_bytes > base->os_bytes + refused && vf_verbose) vf_os_dump(2);
+  /* arena memory is given back too (as in the fault-free runs of C11) -- unless a purge request itself was refused in this case
+     (what could not be purged then is not purged again later) or purging is off */
+  { long refused_purges = 0;
+    for (long k = 0; k < vf_os.ncalls && k < VF_MAX_CALLS; k++) if (vf_os.calls[k].failed && (vf_os.calls[k].kind == VF_C_MADVISE || (vf_os.calls[k].kind == VF_C_MPROTECT && vf_os.calls[k].arg == PROT_NONE))) refused_purges++;
+    if (refused_purges == 0 && mi_option_get(mi_option_purge_delay) >= 0 && s.arena_resident_body > base->arena_resident_body) {
+      VIOL("arena-still-committed-after-recovery", "after recovery + free-all + mi_collect(true): %zu bytes of arena memory (beyond segment descriptor slices) are still resident (baseline %zu) although no purge request was refused", s.arena_resident_body, base->arena_resident_body);
+      return;
+    }
+  }
   if (s.os_bytes > base->os_bytes + refused) {
     /* classify: is everything that is left a whole segment straight from the OS that holds no page at all (known finding C07:
        obtained after a refused commit elsewhere, never used because the retry succeeded in the old segment, and segments are
